@@ -33,4 +33,11 @@ MUTANTS = [
  ('c20-space-253', 'C20', 'pymodbus/mei_message.py', "self.space_left = 253 - 6", "self.space_left = 253"),
  ('c20-extended-skips-80', 'C20', 'pymodbus/device.py', "[x for x in range(i, 0x100) if x not in range(0x07, 0x80)]\n            if", "[x for x in range(i, 0x100) if x not in range(0x07, 0x81)]\n            if"),
  ('c20-rtu-size', 'C20', 'pymodbus/mei_message.py', "            size += object_length + 2\n            count -= 1", "            size += object_length + 2\n            count -= 2"),
+ # ---- C14
+ ('c14-bits-size', 'C14', 'pymodbus/bit_read_message.py', "        count = self.count//8\n        if self.count % 8:\n            count += 1\n", "        count = self.count//8 + 1\n"),
+ ('c14-binary-base', 'C14', 'pymodbus/transaction.py', "self.base_adu_size = 5  # start(1) + Address(1), CRC(2) + end(1)", "self.base_adu_size = 4  # start(1) + Address(1), CRC(2) + end(1)"),
+ ('c14-ascii-exception', 'C14', 'pymodbus/transaction.py', "return self.base_adu_size + 4  # Fcode(2), ExcecptionCode(2)", "return self.base_adu_size + 2  # Fcode(2), ExcecptionCode(2)"),
+ ('c14-rw-size', 'C14', 'pymodbus/register_read_message.py', "        return 1 + 1 + 2 * self.read_count", "        return 1 + 1 + 2 * self.write_count"),
+ ('c14-rtu-minsize', 'C14', 'pymodbus/transaction.py', "            elif isinstance(self.client.framer, ModbusRtuFramer):\n                min_size = 2", "            elif isinstance(self.client.framer, ModbusRtuFramer):\n                min_size = 3"),
+ ('c14-ascii-doubling', 'C14', 'pymodbus/transaction.py', "response_pdu_size = response_pdu_size * 2", "response_pdu_size = response_pdu_size * 2 - (response_pdu_size > 200)"),
 ]
